@@ -17,22 +17,19 @@ func init() {
 var openers = map[token.ID]int{'(': 0, '[': 1, '{': 2, token.T_CURLY_OPEN: 2, token.T_DOLLAR_OPEN_CURLY_BRACES: 2}
 var closers = map[token.ID]int{')': 0, ']': 1, '}': 2}
 
-// balanced: bracket balance per family over the significant token ids (grammar_balanced, Lean:
+// balanced: openers = closers per bracket family over the significant token ids (Lean C06.sentences7_balanced:
 // every sentence of the extracted grammars is balanced, so an unbalanced token sequence is
 // provably not a valid program).
 func balanced(ids []token.ID) bool {
-	var st []int
+	var open, close [3]int
 	for _, id := range ids {
 		if f, ok := openers[id]; ok {
-			st = append(st, f)
+			open[f]++
 		} else if f, ok := closers[id]; ok {
-			if len(st) == 0 || st[len(st)-1] != f {
-				return false
-			}
-			st = st[:len(st)-1]
+			close[f]++
 		}
 	}
-	return len(st) == 0
+	return open == close
 }
 
 // evalC06: (a) shape of every delivered error; (b) same tree with and without callback;
